@@ -107,4 +107,92 @@ theorem mJoinProcs_le (X : St) : muM (mJoinProcs X) + 1 ≤ muM { X with mpc := 
   · simp [muM, mRank, mRankOf]
     omega
 
+/-! ### the step
+
+Needed about the state: the manager is not at a program counter that a static pool never reaches (`mNever`); at most
+`max_workers` processes are registered; `joinOk` (inside `shutdown_workers` the counter `k` of sentinels still to put is
+`n - sent > 0`); a thread about to start the feeder thread has found that there is none.  The continuations are made
+irreducible so that the search for the applicable bound fails fast. -/
+
+attribute [local irreducible] mAdd mAddF mAfterItem mProcess mAfterFlag mJoinLoop mRelExitNext mAliveNext mJoinClose
+  muM mu mJoinProcs mAfterPut mKillNext mSpawnLoop mRespawnCheck mDropRef mAfterAddF mJoinStart spawn die failAll setFut
+
+local macro "mb" t:term : tactic =>
+  `(tactic| (refine Nat.lt_of_le_of_lt $t ?_; simp [muM, mRank, mRankOf, *] <;> omega))
+
+set_option maxHeartbeats 8000000 in
+theorem mu_stepM (s s' : St) (v : Variant) (hmn : mNever s.mpc = false) (hle : s.procDict.length ≤ s.cfg.maxWorkers)
+    (hj : joinOk s = true) (hts : mSlot s.mpc ≠ 0 → s.fpc = .none) (hs : stepM s v = some s') : mu s' < mu s := by
+  have hR := joinR_lt s.cfg.maxWorkers
+  have hW : 30 ≤ waitR s.cfg.maxWorkers := by unfold waitR joinR tailR; omega
+  have hT : tailR s.cfg.maxWorkers = s.cfg.maxWorkers + 26 := rfl
+  unfold stepM at hs
+  crack
+  all_goals (first
+    | (exfalso; simp_all [mNever]; done)
+    | (refine mu_M s _ ?_ ?_ ?_ ?_ ?_ ?_ ?_))
+  all_goals (first
+    | (simp; done)
+    | (simp [muM, mRank, mRankOf, *]; done)
+    | (simp [muM, mRank, mRankOf, *]; omega)
+    | (mb (mAdd_le _); done)
+    | (mb (mAddF_le _); done)
+    | (mb (mAfterItem_le _); done)
+    | (mb (mProcess_le _ _); done)
+    | (mb (mAfterFlag_le _); done)
+    | (mb (mJoinLoop_le _ _ _ _); done)
+    | (mb (mRelExitNext_le _ _ _); done)
+    | (mb (mAliveNext_le _ _ _ _ _ _); done)
+    | (mb (mJoinClose_le _); done)
+    | skip)
+  all_goals (first
+    -- the feeder thread is started: it did not exist
+    | (have hf : s.fpc = .none := hts (by simp [mSlot, *])
+       first
+         | (refine Nat.lt_of_le_of_lt (mAdd_le _) ?_; simp [muM, mRank, mRankOf, fRank, *] <;> omega)
+         | (refine Nat.lt_of_le_of_lt (mAddF_le _) ?_; simp [muM, mRank, mRankOf, fRank, *] <;> omega)
+         | (refine Nat.lt_of_le_of_lt (mAfterPut_le _ _ _ _ _) ?_
+            simp [muM, mRank, mRankOf, fRank, *]
+            simp [joinOk, mFinal, *] at hj
+            rename_i k n sent cool _
+            have := psi_sent s.cfg.maxWorkers n sent cool (by omega)
+            omega))
+    -- `wait` left on a wake-up byte alone; `thread_wakeup.clear()`
+    | (have hw : s.wakeup ≠ 0 := by omega
+       simp [muM, mRank, mRankOf, *] <;> omega)
+    | (have hw : s.wakeup ≠ 0 := by omega
+       cases ‹AfterClear› with
+       | broken b => exfalso; simp_all [mNever]
+       | item r =>
+         cases r <;> simp [muM, mRank, mRankOf, *] <;> (try split) <;> omega)
+    | (cases ‹Option RMsg› <;> mb (mProcess_le _ _) <;> done)
+    | (refine Nat.lt_of_lt_of_le (Nat.lt_of_succ_le (mJoinProcs_le _)) ?_
+       simp [muM, mRank, mRankOf, *] <;> omega)
+    | skip)
+  case h_28.isTrue.refl.refine_7 =>
+    refine Nat.lt_of_le_of_lt (mRelExitNext_le _ _ _) ?_
+    simp [muM, mRank, mRankOf, *]
+    have := psi_mono s.cfg.maxWorkers _ _ hle
+    unfold joinR
+    omega
+  case h_29.isFalse.refl.refine_7 =>
+    refine Nat.lt_of_le_of_lt (mRelExitNext_le _ _ _) ?_
+    simp [muM, mRank, mRankOf, *]
+    rename_i rest n _ _
+    have e : n + 1 + rest.length = n + (rest.length + 1) := by omega
+    rw [e]
+    omega
+  case h_34.isTrue.isFalse.refl.refine_7 =>
+    refine Nat.lt_of_le_of_lt (mAfterPut_le _ _ _ _ _) ?_
+    simp [muM, mRank, mRankOf, *]
+    simp [joinOk, mFinal, *] at hj
+    rename_i k n sent cool _ _ _
+    have := psi_sent s.cfg.maxWorkers n sent cool (by omega)
+    omega
+  case h_35.isTrue.isFalse.refl.refine_7 =>
+    simp [muM, mRank, mRankOf, *]
+    rename_i k n sent cool _ _ _
+    have := psi_cool s.cfg.maxWorkers n sent cool (by omega)
+    omega
+
 end LokyModel.Exec
